@@ -129,6 +129,9 @@ u8_t runcrypt::verify(size_t fsize)
   u8_t *hash = header.getHmac(64);
   if (hash == NULL)
     return 1;
+  // the mode bytes come from the file: refuse values the factories do not know
+  if (!AesFactory::isType(header.getctype()) || HashFactory::getType(header.gethtype()) == HashFactory::Unknown)
+    return 3;
   fseek(fin, FILE_IV_MARK, SEEK_SET);
   if (!hmachandle.cmphmac(header.gethtype(), key, fin, hash, fsize))
     return 2;
